@@ -225,6 +225,8 @@ def run(ctx):
     got_ = {v["discr"]: v["name"] for v in (mm_ or {}).get("variants", [])}
     ctx.check(got_ == S.VBE_MEMORY_MODELS, "G9", "enum:VBEMemoryModel", "VBEMemoryModel discriminants are the VBE 3.0 memory model numbers 0..7",
               (mm_ or {}).get("span", ""), how=str(got_), why="have %s, specified %s" % (got_, S.VBE_MEMORY_MODELS), nontrivial=False)
+    from . import c15 as C15_
+    C15_.cast_rejects_exactly(ctx, F, "G8")
     n_fc = TT.flag_constants(ctx, F, S.VBE_FLAG_CONSTANTS, "G9", "VBE 3.0 bit assignment")
     ctx.floor("G9", "VBE flag constants", n_fc, 15)
     ctx.import_prop("C03")
